@@ -61,6 +61,8 @@ func replay(raw json.RawMessage) (string, bool) {
 	return strings.Join(found, "\n"), true
 }
 
+var traceSig = os.Getenv("VERIF_C07_TRACE")
+
 const testdataDir = "/repo/private/buf/bufformat/testdata"
 
 type seed struct {
@@ -112,6 +114,9 @@ func loadSeeds() ([]seed, error) {
 	}
 	sort.Slice(seeds, func(i, j int) bool { return seeds[i].Name < seeds[j].Name })
 	for _, s := range ownSeeds {
+		seeds = append(seeds, seed{Name: "own/" + s.Name, Text: s.Text})
+	}
+	for _, s := range shapeSeeds() {
 		seeds = append(seeds, seed{Name: "own/" + s.Name, Text: s.Text})
 	}
 	return seeds, nil
@@ -200,6 +205,7 @@ func attributionOf(file *ast.FileNode, norm string, hint int) string {
 		}
 	}
 	prevHasTrailing := false
+	var sepClasses map[ast.Token]string
 	for t, ok := seq.First(); ok; t, ok = seq.Next(t) {
 		info := file.TokenInfo(t)
 		role := roles[t]
@@ -219,7 +225,12 @@ func attributionOf(file *ast.FileNode, norm string, hint int) string {
 				if prevHasTrailing {
 					what += "/value-has-own-trailing-comment"
 				} else {
-					what += "/value-without-trailing-comment"
+					// where the comment has to go depends on the kind of value: a token carries it
+					// itself, a message literal hands it on to its closing bracket, ...
+					if sepClasses == nil {
+						sepClasses = sepValueClasses(file)
+					}
+					what += "/value-without-trailing-comment" + sepClasses[t]
 				}
 			}
 			consider(tc.Index(i), what)
@@ -227,6 +238,38 @@ func attributionOf(file *ast.FileNode, norm string, hint int) string {
 		prevHasTrailing = tc.Len() > 0
 	}
 	return normAttribution(best)
+}
+
+// sepValueClasses maps every optional message-literal separator that follows a value which is not a
+// single token to "/after-<class of that value>" (the printer moves the comments of the dropped
+// separator to the value; each class of composite value has its own way of printing them).
+func sepValueClasses(file *ast.FileNode) map[ast.Token]string {
+	m := map[ast.Token]string{}
+	_ = ast.Walk(file, &ast.SimpleVisitor{
+		DoVisitMessageLiteralNode: func(n *ast.MessageLiteralNode) error {
+			for i, sep := range n.Seps {
+				if sep == nil || i >= len(n.Elements) {
+					continue
+				}
+				switch v := n.Elements[i].Val.(type) {
+				case *ast.MessageLiteralNode:
+					if v.Open != nil && v.Open.Rune == '<' {
+						m[sep.Token()] = "/after-angle-message-literal"
+					} else {
+						m[sep.Token()] = "/after-brace-message-literal"
+					}
+				case *ast.ArrayLiteralNode:
+					m[sep.Token()] = "/after-array-literal"
+				case ast.TerminalNode:
+				default:
+					// signed numbers, -inf/-nan, adjacent string literals
+					m[sep.Token()] = "/after-composite-scalar"
+				}
+			}
+			return nil
+		},
+	})
+	return m
 }
 
 // normAttribution merges attributions that are one code path in the printer.
@@ -472,6 +515,8 @@ type stats struct {
 	roleChanged, detachedNotDemanded, inheritedFromSeed            atomic.Int64
 	idemChecked, outputDiffersFromInput                            atomic.Int64
 	pairCases, cliCases, cliExitChecked, cliChanged                atomic.Int64
+	cliOutChecked, cliOutPreexisting                               atomic.Int64
+	cliOutOverLonger, cliOutOverShorter                            atomic.Int64
 	parserPanics                                                   atomic.Int64
 	perDecoration                                                  [16]atomic.Int64
 }
@@ -525,6 +570,10 @@ func (e *explorer) check(c Case, tags []string, isBase bool) (parsed bool) {
 		sig := f.sig
 		if sig == "" {
 			sig = f.oracle + "/at/" + c.site
+		}
+		if traceSig != "" && strings.Contains(sig, traceSig) {
+			// triage aid (VERIF_C07_TRACE=<part of a signature>): one line per failing case
+			fmt.Fprintf(os.Stderr, "TRACE %s\t%s\t%v\t%s\n", sig, c.Seed, c.Gaps, c.Context)
 		}
 		e.r.Violate(sig, f.oracle+": "+f.detail, cc)
 	}
@@ -777,7 +826,8 @@ func idemClass(out, out2 string) string {
 				return "second-pass-adds-space-before-comment"
 			}
 			return "second-pass-adds-space/" + prev + "_" + next
-		case beforeComment(x) == beforeComment(y) && strings.HasSuffix(beforeComment(x), "}") && strings.HasPrefix(strings.TrimSpace(x), "{"):
+		case beforeComment(x) == beforeComment(y) && strings.HasSuffix(beforeComment(x), "}") && strings.HasPrefix(beforeComment(x), "{"):
+			// (the literal may have a leading comment of its own in front of the '{')
 			return "comment-after-last-message-literal-of-array"
 		case y == "" && x != "":
 			return "second-pass-adds-blank-line"
@@ -978,12 +1028,125 @@ func (e *explorer) cliPhase(seeds []*seed) {
 			r.Violate("cli-write/content", fmt.Sprintf("buf format -w: exit %d, file content equals `buf format` output: %v", w.ExitCode, string(after) == plain.Stdout),
 				Case{Seed: s.Name, Context: "cli", Input: s.Text, Output: string(after), Detail: stripScratch(w.Stderr, scratch)})
 		}
+		e.cliOutputTargets(s, dir, scratch, plain.Stdout)
 	})
 	r.Set("cli_seeds_formatted", e.st.cliCases.Load())
 	r.Set("cli_exit_code_checked", e.st.cliExitChecked.Load())
 	r.Set("cli_seeds_changed_by_format", e.st.cliChanged.Load())
+	r.Set("cli_output_targets", func() []string {
+		var n []string
+		for _, k := range []string{"file", "dir"} {
+			for _, st := range outputStates {
+				n = append(n, k+":"+st.name)
+			}
+		}
+		return n
+	}())
+	r.Set("cli_output_runs_checked", e.st.cliOutChecked.Load())
+	r.Set("cli_output_runs_over_existing_file", e.st.cliOutPreexisting.Load())
+	r.Set("cli_output_runs_over_longer_file", e.st.cliOutOverLonger.Load())
+	r.Set("cli_output_runs_over_shorter_file", e.st.cliOutOverShorter.Load())
+	if e.st.cliOutOverLonger.Load() == 0 || e.st.cliOutOverShorter.Load() == 0 {
+		r.Incomplete("cli -o clause never wrote over a longer / over a shorter pre-existing file")
+	}
 	if e.st.cliChanged.Load() == 0 || e.st.cliChanged.Load() == e.st.cliExitChecked.Load() {
 		r.Incomplete("cli exit-code clause saw only one outcome")
+	}
+}
+
+// outputStates is the state of the target of `buf format <file> -o <target>` before the command runs.
+// The property speaks about the file that formatting yields, so whatever was at the target before,
+// afterwards it must hold exactly the formatted text (the text `buf format <file>` prints, which goes
+// through all other oracles).
+var outputStates = []struct {
+	name string
+	// content of the pre-existing target file; exists=false: nothing there yet
+	content func(input, formatted string) (content string, exists bool)
+}{
+	{"absent", func(in, f string) (string, bool) { return "", false }},
+	{"holds-formatted-text", func(in, f string) (string, bool) { return f, true }},
+	{"holds-shorter-text", func(in, f string) (string, bool) { return f[:len(f)/2], true }},
+	{"holds-longer-text", func(in, f string) (string, bool) {
+		return f + "\n// left over from an earlier run\nmessage LeftOver {}\n", true
+	}},
+	{"holds-unformatted-input", func(in, f string) (string, bool) { return in, true }},
+	// the target is the input file itself: `buf format x.proto -o x.proto`, `buf format dir/x.proto -o dir`
+	{"is-the-input-file", nil},
+}
+
+func (e *explorer) cliOutputTargets(s *seed, dir, scratch, formatted string) {
+	r := e.r
+	for _, kind := range []string{"file", "dir"} {
+		for si, state := range outputStates {
+			caseDir := filepath.Join(dir, fmt.Sprintf("o-%s-%d", kind, si))
+			src := filepath.Join(caseDir, "src", "f.proto")
+			target := filepath.Join(caseDir, "out", "g.proto") // kind file: -o <target>
+			outArg := target
+			if kind == "dir" {
+				target = filepath.Join(caseDir, "out", "f.proto") // -o <dir>: the file keeps its name
+				outArg = filepath.Dir(target)
+			}
+			if err := os.MkdirAll(filepath.Dir(src), 0o755); err != nil {
+				r.Incomplete(err.Error())
+				return
+			}
+			if err := os.WriteFile(src, []byte(s.Text), 0o644); err != nil {
+				r.Incomplete(err.Error())
+				return
+			}
+			before, exists := s.Text, true
+			if state.content == nil {
+				target = src
+				outArg = src
+				if kind == "dir" {
+					outArg = filepath.Dir(src)
+				}
+			} else if before, exists = state.content(s.Text, formatted); exists {
+				if err := os.MkdirAll(filepath.Dir(target), 0o755); err != nil {
+					r.Incomplete(err.Error())
+					return
+				}
+				if err := os.WriteFile(target, []byte(before), 0o644); err != nil {
+					r.Incomplete(err.Error())
+					return
+				}
+			}
+			res := bufx.RunCLI(context.Background(), nil, "", "format", src, "-o", outArg)
+			afterBytes, readErr := os.ReadFile(target)
+			after := string(afterBytes)
+			e.st.cliOutChecked.Add(1)
+			r.Eval(1)
+			r.Distinct(s.Name + "\x00cli -o " + kind + " " + state.name)
+			if exists {
+				e.st.cliOutPreexisting.Add(1)
+				switch {
+				case len(before) > len(formatted):
+					e.st.cliOutOverLonger.Add(1)
+				case len(before) < len(formatted):
+					e.st.cliOutOverShorter.Add(1)
+				}
+			}
+			class := ""
+			switch {
+			case res.ExitCode != 0:
+				class = fmt.Sprintf("exit-%d", res.ExitCode)
+			case readErr != nil:
+				class = "no-file-written"
+			case after == formatted:
+			case len(after) > len(formatted) && strings.HasPrefix(after, formatted):
+				class = "stale-bytes-after-formatted-text"
+			case len(after) < len(formatted) && strings.HasPrefix(formatted, after):
+				class = "formatted-text-truncated"
+			default:
+				class = "content-differs"
+			}
+			if class != "" {
+				r.Violate("cli-output/"+kind+"/"+class,
+					fmt.Sprintf("buf format f.proto -o <%s>, target %s before the run: exit %d; afterwards the target holds %d bytes, `buf format f.proto` prints %d bytes, equal: %v",
+						kind, state.name, res.ExitCode, len(after), len(formatted), after == formatted),
+					Case{Seed: s.Name, Context: "cli -o " + kind + " " + state.name, Input: s.Text, Output: after, Detail: stripScratch(res.Stderr, scratch)})
+			}
+		}
 	}
 }
 
